@@ -26,7 +26,6 @@ type URRInfo struct {
 	SEQN    uint32
 	report.MeasureMethod
 	report.MeasureInformation
-	refPdrNum uint16
 }
 
 type Sess struct {
@@ -116,10 +115,6 @@ func (s *Sess) CreatePDR(req *ie.IE) error {
 				break
 			}
 			urrids[v] = struct{}{}
-			urrInfo, ok := s.URRIDs[v]
-			if ok {
-				urrInfo.refPdrNum++
-			}
 		}
 	}
 
@@ -135,29 +130,36 @@ func (s *Sess) CreatePDR(req *ie.IE) error {
 	return nil
 }
 
+// urrReferenced reports whether any PDR of the session currently lists the URR.
+func (s *Sess) urrReferenced(urrid uint32) bool {
+	for _, pdrInfo := range s.PDRIDs {
+		if _, ok := pdrInfo.RelatedURRIDs[urrid]; ok {
+			return true
+		}
+	}
+	return false
+}
+
+// diassociateURR is called after a PDR stopped listing the URR.
 func (s *Sess) diassociateURR(urrid uint32) []report.USAReport {
-	urrInfo, ok := s.URRIDs[urrid]
+	_, ok := s.URRIDs[urrid]
 	if !ok {
 		return nil
 	}
 
-	if urrInfo.refPdrNum > 0 {
-		urrInfo.refPdrNum--
-		if urrInfo.refPdrNum == 0 {
-			// indicates usage report being reported for a URR due to dissociated from the last PDR
-			usars, err := s.rnode.driver.QueryURR(s.LocalID, urrid)
-			if err != nil {
-				return nil
-			}
-			for i := range usars {
-				usars[i].USARTrigger.Flags |= report.USAR_TRIG_TERMR
-			}
-			return usars
-		}
-	} else {
-		s.log.Warnf("diassociateURR: wrong refPdrNum(%d)", urrInfo.refPdrNum)
+	if s.urrReferenced(urrid) {
+		return nil
 	}
-	return nil
+
+	// indicates usage report being reported for a URR due to dissociated from the last PDR
+	usars, err := s.rnode.driver.QueryURR(s.LocalID, urrid)
+	if err != nil {
+		return nil
+	}
+	for i := range usars {
+		usars[i].USARTrigger.Flags |= report.USAR_TRIG_TERMR
+	}
+	return usars
 }
 
 func (s *Sess) UpdatePDR(req *ie.IE) ([]report.USAReport, error) {
@@ -195,8 +197,11 @@ func (s *Sess) UpdatePDR(req *ie.IE) ([]report.USAReport, error) {
 		return nil, err
 	}
 
+	oldUrrids := pdrInfo.RelatedURRIDs
+	pdrInfo.RelatedURRIDs = newUrrids
+
 	var usars []report.USAReport
-	for urrid := range pdrInfo.RelatedURRIDs {
+	for urrid := range oldUrrids {
 		_, ok = newUrrids[urrid]
 		if !ok {
 			usar := s.diassociateURR(urrid)
@@ -205,7 +210,6 @@ func (s *Sess) UpdatePDR(req *ie.IE) ([]report.USAReport, error) {
 			}
 		}
 	}
-	pdrInfo.RelatedURRIDs = newUrrids
 
 	return usars, err
 }
@@ -226,6 +230,8 @@ func (s *Sess) RemovePDR(req *ie.IE) ([]report.USAReport, error) {
 		return nil, err
 	}
 
+	delete(s.PDRIDs, pdrid)
+
 	var usars []report.USAReport
 	for urrid := range pdrInfo.RelatedURRIDs {
 		usar := s.diassociateURR(urrid)
@@ -233,7 +239,6 @@ func (s *Sess) RemovePDR(req *ie.IE) ([]report.USAReport, error) {
 			usars = append(usars, usar...)
 		}
 	}
-	delete(s.PDRIDs, pdrid)
 	return usars, nil
 }
 
